@@ -35,12 +35,12 @@ func runGMerge(c *Ctx) {
 	if c.gWants("C11") {
 		sh11 = c.newShard("g11", runnerG, "caseG", "mismatches", "violations11")
 		sh11.prelude = gPrelude
-		sh11.limit = 60
+		sh11.limit = 90
 	}
 	if c.gWants("C12") {
 		sh12 = c.newShard("g12", runnerG, "caseG", "mismatches", "violations12")
 		sh12.prelude = gPrelude
-		sh12.limit = 60
+		sh12.limit = 90
 		gKeyCases(c)
 	}
 	nScen := c.pick(170, 2500)
@@ -89,7 +89,7 @@ func gKeyCases(c *Ctx) {
 		{{PartitionID: "\x01a"}, {PartitionID: "", MinMaxIndexes: map[string]bs.MinMaxIndex{"a": {}}}},
 		{{PartitionID: "", MinMaxIndexes: map[string]bs.MinMaxIndex{"a": {}, "b": {}}}, {PartitionID: "", MinMaxIndexes: map[string]bs.MinMaxIndex{"b": {}, "a": {}}}},
 		{{PartitionID: strings.Repeat("x", 128)}, {PartitionID: strings.Repeat("x", 128), MinMaxIndexes: map[string]bs.MinMaxIndex{}}},
-		{{PartitionID: strings.Repeat("x", 16384)}, {PartitionID: strings.Repeat("x", 16383)}},
+		{{PartitionID: strings.Repeat("x", 1000)}, {PartitionID: strings.Repeat("x", 999)}},
 	}
 	for _, p := range conf {
 		add(p[0], p[1])
